@@ -127,14 +127,26 @@ class Oracle:
 def script_of(case):
     code, px, py, po, mip = case
     # px == 2: a primal answer that violates the row x0 + x1 <= 5 (used to observe whether the automatic solution check ran)
-    return {'code': code, 'msg': 'scripted result', 'x': (X_VIOL if px == 2 else X_SPEC) if px else 'none', 'y': Y_SPEC if py else 'none',
+    # px == 3: a complete feasible answer plus two alternative solutions (written to <sol:stub>N.sol)
+    return {'code': code, 'msg': 'scripted result', 'altsols': 2 if px == 3 else 0, 'x': (X_VIOL if px == 2 else X_SPEC) if px else 'none', 'y': Y_SPEC if py else 'none',
             'obj': OBJ_SPEC if po else 'none', 'ismip': mip, 'rays': 1}
 
 
 def observe(binary, workdir, nl, case):
     """-> compact observation dict of one driver run"""
-    r = vdriverlib.run(binary, workdir, nl_text=nl, script=script_of(case))
+    alt = case[1] == 3
+    if alt:
+        for f in os.listdir(workdir) if os.path.isdir(workdir) else []:
+            if f.startswith('alt'): os.remove(os.path.join(workdir, f))
+    r = vdriverlib.run(binary, workdir, nl_text=nl, script=script_of(case),
+                       env_opts={'vdriver_options': 'sol:stub=%s' % os.path.join(workdir, 'alt')} if alt else None)
     o = {'rc': r['rc'], 'sol': None, 'err': r['err'][-300:]}
+    if alt:
+        codes = []
+        for k in (1, 2):
+            try: codes.append(vdriverlib.parse_sol(open(os.path.join(workdir, 'alt%d.sol' % k), errors='replace').read())['code'])
+            except (OSError, ValueError, IndexError): codes.append(None)
+        o['altcodes'] = codes
     if r['sol'] is not None:
         try:
             s = vdriverlib.parse_sol(r['sol'])
@@ -174,6 +186,8 @@ def judge(orc, case, o):
             f.append(('solution check ran' if o.get('tolviol') else 'solution check skipped', {'message': o['first']}))
     elif px == 1 and o.get('tolviol'):
         f.append(('solution check reports a feasible answer', {'message': o['first']}))
+    if px == 3 and o.get('altcodes') != [code, code]:
+        f.append(('alternative solution code', {'alt_codes': o.get('altcodes')}))
     # rays (alg:rays default 3): .unbdd is documented for "objective unbounded", .dunbdd for "constraints infeasible";
     # the undecided class 450-469 may return either
     cat = orc.cat(code)
@@ -305,6 +319,7 @@ def _main(chk, tier, binary):
     cases = [(code, px, py, po, mip) for mip in mips for code in range(LO, HI + 1)
              for px in (1, 0) for py in (1, 0) for po in (1, 0)]
     cases += [(code, 2, 1, 1, mip) for mip in mips for code in range(LO, HI + 1)]
+    cases += [(code, 3, 1, 1, mip) for mip in mips for code in range(LO, HI + 1)]
     nw = vcheck.NCPU
     jobs = [(binary, i, nl, cases[i::nw], ranges) for i in range(nw)]
     with multiprocessing.get_context('fork').Pool(nw) as pool:
@@ -344,6 +359,7 @@ def _main(chk, tier, binary):
            'unbounded ray missing': 'C10 .unbdd ray not returned for the unbounded class: %s',
            'infeasibility ray returned': 'C10 .dunbdd ray returned for a code outside the infeasible / undecided classes: %s',
            'infeasibility ray missing': 'C10 .dunbdd ray not returned for the infeasible class: %s',
+           'alternative solution code': 'C10 alternative-solution .sol files (sol:stub) do not carry the reported code for %s',
            'solution check skipped': 'C10 violating answer not reported by the solution check (treated as infeasible class) for %s',
            'solution check ran': 'C10 solution check ran on an answer of the infeasible class (sol:chk:infeas=0) for %s',
            'solution check reports a feasible answer': 'C10 solution check reports a feasible answer for %s'}
@@ -408,13 +424,13 @@ def _main(chk, tier, binary):
 
     chk.cov['evaluations'] = chk.cov.get('driver_runs', 0) + chk.cov.get('predicate_evaluations', 0) + chk.cov.get('bang_runs', 0)
     vcheck.finalize_classes(chk)
-    chk.set('rule', 'complete enumeration: every status code in [%d, %d] x {primal, dual, objective value present/absent}%s plus, per code, one complete answer whose primal point violates the row (does the automatic solution check treat the code as the infeasible class?); the scripted solver offers rays, so the .unbdd / .dunbdd suffixes show which codes the driver treats as unbounded / infeasible, '
+    chk.set('rule', 'complete enumeration: every status code in [%d, %d] x {primal, dual, objective value present/absent}%s plus, per code, one complete answer whose primal point violates the row (does the automatic solution check treat the code as the infeasible class?) and one answer with two alternative solutions written through sol:stub (their .sol files must carry the reported code); the scripted solver offers rays, so the .unbdd / .dunbdd suffixes show which codes the driver treats as unbounded / infeasible, '
             'one driver process per case (scripted backend on the real RunBackendApp path, tiny LP with one objective); '
             'the six StdBackend classification predicates called on the same backend class for every code; `-!` once. '
             'Oracle: range table parsed from doc/source/features-guide.rst. A class is (documented class of the code, '
             'presence pattern, what the message / .sol showed) or (predicate, documented class, answer).'
             % (LO, HI, ' x IsMIP {0,1}' if tier == 'thorough' else ' (IsMIP=0, so duals are reported)'))
-    chk.set('bounds', {'codes': [LO, HI], 'presence_patterns': 9, 'ismip': mips, 'predicates': PREDICATES,
+    chk.set('bounds', {'codes': [LO, HI], 'presence_patterns': 10, 'ismip': mips, 'predicates': PREDICATES,
                        'documented_ranges': ['%d-%d %s' % r[:3] for r in ranges]})
     chk.assumptions += [
         'domain: the documented table covers 0..999; codes -200..-1 (sol::NOT_SET, sol::UNKNOWN and everything between) are '
